@@ -1,8 +1,15 @@
 """C20 -- numeric series helpers: the order-statistic and row-preservation clauses only."""
 
-from ..absint import Lin, Lst, PyFunc, Tup, label_var
+from ..absint import Interp, Lin, Lst, PyFunc, PyRaise, Tup, label_var
+from ..index import Undecided
+from ..tables import default_overrides
 from ..tables import Atoms, Outcome, TableRun, compare_outcomes, num_equal, run_code, run_spec, run_states, show
 from . import common
+from .. import terms
+
+
+def _env(env):
+    return ", ".join("%s=%g" % kv for kv in sorted(env.items()))
 
 
 def median_table(rep, n, windows):
@@ -64,6 +71,395 @@ def median_table(rep, n, windows):
     tr.done("series of %d generic values x windows %s x padding" % (n, list(windows)))
 
 
+def measures_table(rep, n):
+    """getPitchMeasures on n generic pitch values: (mean, max, min, range, population variance, deviation) are the
+    textbook expressions over the values that remain after the optional zero removal and median filtering; an empty
+    remainder gives six zeros.  Squares and products are polynomials over the symbols, the root is an uninterpreted
+    function of its argument, so the comparison is between expressions, not numbers.  The property does not fix the
+    order of zero removal and filtering, nor the padding mode: any of them is accepted."""
+    from fractions import Fraction
+
+    idx = common.ctx()
+    fn = idx.get("pitch_and_intensity:getPitchMeasures")
+    med = idx.get("utilities.my_math:medianFilter")
+    rep.functions.add(fn.qual)
+    at = Atoms()
+    at.const(0, "0")
+    at.const(1, "1")
+    xs = [at.var("x%d" % i) for i in range(1, n + 1)]
+    for i in range(1, n + 1):
+        at.rel("0", "<=", "x%d" % i)
+    tr = TableRun(rep, "M-measures", fn.short, fn.loc)
+    names = ["mean", "max", "min", "range", "variance", "deviation"]
+
+    def rows(st):
+        out = []
+        unvoiced = {}
+        for x in xs:
+            if st.signs(x) == frozenset([0]):
+                unvoiced[list(x.coef)[0]] = True
+            elif st.signs(x - Lin.num(1)) <= frozenset([0, 1]):
+                unvoiced[list(x.coef)[0]] = False
+            else:
+                # 0 < x < 1: not a pitch value (Hz); int(x) != 0 and x != 0 differ there
+                return [((w, z), True, "dontcare", None) for w in (None, 3) for z in (False, True)]
+
+        def to_int(I_, a, k):
+            v = a[0]
+            if isinstance(v, Lin) and len(v.coef) == 1 and v.const == 0 and list(v.coef)[0] in unvoiced and list(v.coef.values())[0] == 1:
+                return Lin.num(0) if unvoiced[list(v.coef)[0]] else Lin.num(1)  # only ever compared with 0
+            if isinstance(v, Lin) and v.is_const():
+                import math as _m
+                return Lin.num(_m.trunc(v.const))
+            raise Undecided("int(%r)" % (v,))
+
+        def voiced(vals):
+            return [v for v in vals if not unvoiced[list(v.coef)[0]]]
+
+        def expected(I, vals):
+            if not vals:
+                return [Lin.num(0)] * 6
+            cnt = Fraction(1, len(vals))
+            total = Lin.num(0)
+            for v in vals:
+                total = total + v
+            mean = total.scale(cnt)
+            mx = I.num(I._minmax("max", [Lst(list(vals))], {}, None))
+            mn = I.num(I._minmax("min", [Lst(list(vals))], {}, None))
+            var = Lin.num(0)
+            for v in vals:
+                d = v - mean
+                var = var + d.times(d)
+            var = var.scale(cnt)
+            return [mean, mx, mn, mx - mn, var, Lin.apply("sqrt", var) if not var.is_const() else Lin.num(0)]
+
+        def judge(I, items, want, vals):
+            unknown = None
+            for nm, g, w in zip(names, items, want):
+                try:
+                    gg = I.num(g)
+                except Undecided:
+                    return ("differ", "%s is %r" % (nm, g))
+                verdict = terms.decide(st, xs, gg, w)
+                if verdict[0] == "differ":
+                    return ("differ", "%s is %r, expected %r (values measured: %s); e.g. with %s it is %.6g, not %.6g" % (nm, gg, w, [repr(v) for v in vals], _env(verdict[1]), verdict[2], verdict[3]))
+                if verdict[0] == "unknown" and unknown is None:
+                    unknown = "%s: %s" % (nm, verdict[1])
+            return ("unknown", unknown) if unknown else ("same", "")
+
+        for window in (None, 3):
+            for drop_zero in (False, True):
+                mode = (window, drop_zero)
+                I = Interp(idx, st, overrides=default_overrides())
+                I.builtin_overrides = {"int": to_int}
+                try:
+                    got = I.call_function(fn, [Lst(list(xs)), "file", "label", None if window is None else Lin.num(window), drop_zero], {})
+                    items = I.iterate(got) if not isinstance(got, Lin) else [got]
+                    if len(items) != 6:
+                        out.append((mode, False, "returns %d values, expected (mean, max, min, range, variance, deviation)" % len(items), None))
+                        continue
+                    # the series that may legitimately be measured
+                    cands = []
+                    if window is None:
+                        cands.append(voiced(xs) if drop_zero else list(xs))
+                    else:
+                        for pad in (True, False):
+                            for first in ((True, False) if drop_zero else (False,)):
+                                src = voiced(xs) if first else list(xs)
+                                I2 = Interp(idx, st, overrides=default_overrides())
+                                f = [I2.num(v) for v in I2.iterate(I2.call_function(med, [Lst(list(src)), Lin.num(window), pad], {}))]
+                                cands.append(voiced(f) if drop_zero and not first else f)
+                    verdicts = [judge(I, items, expected(I, c), c) for c in cands]
+                except PyRaise as e:
+                    out.append((mode, False, "raises %s" % e.name, None))
+                    continue
+                except Undecided as e:
+                    out.append((mode, False, "", e if type(e).__name__ == "NeedSplit" else str(e)))
+                    continue
+                if any(v[0] == "same" for v in verdicts):
+                    out.append((mode, True, "", None))
+                elif all(v[0] == "differ" for v in verdicts):
+                    out.append((mode, False, verdicts[0][1] + (" (and no other order of zero removal / filtering / padding gives it either)" if len(verdicts) > 1 else ""), None))
+                else:
+                    out.append((mode, False, "", [v[1] for v in verdicts if v[0] == "unknown"][0]))
+        return out
+
+    run_states(at, rows, tr)
+    tr.done("%d generic pitch values (0 = unvoiced, otherwise >= 1) x zero removal x median window (none, 3)" % n)
+
+
+def pitch_errors_table(rep, n=3):
+    """detectPitchErrors on n generic (time, pitch) rows with concrete thresholds: a row is reported iff the previous
+    pitch is at most threshold x current or at least current / threshold; reported at the row's own time, in order."""
+    from fractions import Fraction
+
+    idx = common.ctx()
+    fn = idx.get("pitch_and_intensity:detectPitchErrors")
+    rep.functions.add(fn.qual)
+    at = Atoms()
+    at.const(0, "0")
+    ps = [at.var("p%d" % i) for i in range(1, n + 1)]
+    for i in range(1, n + 1):
+        at.rel("0", "<", "p%d" % i)
+    ts = [Lin.var("t%d" % i) for i in range(1, n + 1)]
+    tr = TableRun(rep, "M-jumps", fn.short, fn.loc)
+    thresholds = [Fraction(1, 2), Fraction(7, 10), Fraction(1)]
+
+    def rows(st):
+        out = []
+        for thr in thresholds:
+            I = Interp(idx, st, overrides=default_overrides())
+            try:
+                rows_ = Lst([Tup([t, p_]) for t, p_ in zip(ts, ps)])
+                got = I.call_function(fn, [rows_, Lin.num(thr).as_float()], {})
+                errs = I.iterate(I.iterate(got)[0])
+                want = []
+                edge = False
+                for i in range(1, n):
+                    last, cur = ps[i - 1], ps[i]
+                    lo = I.sign(last, cur.scale(thr))
+                    hi = I.sign(last, cur.scale(1 / thr))
+                    if lo == 0 or hi == 0:
+                        edge = True  # a jump of exactly the ratio: "more than" vs "at least" is not ours to settle
+                    if lo <= 0 or hi >= 0:
+                        want.append(ts[i])
+                if edge:
+                    out.append((float(thr), True, "dontcare", None))
+                    continue
+            except PyRaise as e:
+                out.append((float(thr), False, "raises %s" % e.name, None))
+                continue
+            except Undecided as e:
+                out.append((float(thr), False, "", e if type(e).__name__ == "NeedSplit" else str(e)))
+                continue
+            got_t = [I.iterate(e_)[0] for e_ in errs]
+            ok = len(got_t) == len(want) and all(isinstance(g, Lin) and g.same(w) for g, w in zip(got_t, want))
+            out.append((float(thr), ok, "" if ok else "jumps reported at %s, expected at %s (previous <= threshold x current, or previous >= current / threshold)" % ([repr(g) for g in got_t], [repr(w) for w in want]), None))
+        return out
+
+    run_states(at, rows, tr)
+    tr.done("%d generic (time, pitch) rows x thresholds 0.5, 0.7, 1" % n)
+    # thresholds outside [0, 1] are rejected
+    from ..absint import State
+    st0 = State([("0", Lin.num(0))], [0])
+    for bad in (Fraction(-1, 10), Fraction(11, 10)):
+        I = Interp(idx, st0, overrides=default_overrides())
+        try:
+            I.call_function(fn, [Lst([]), Lin.num(bad).as_float()], {})
+            rep.refuted("M-jumps", fn.short, "threshold %s" % float(bad), "a threshold outside [0, 1] is accepted", loc=fn.loc)
+        except PyRaise as e:
+            rep.check(e.name in set(idx.module("utilities.errors").classes), "M-jumps", fn.short, "threshold %s" % float(bad), ok="rejected with %s" % e.name, bad="raises %s" % e.name)
+        except Undecided as e:
+            rep.undecided("M-jumps", fn.short, "threshold %s" % float(bad), str(e))
+
+
+def _sample_sd(xs):
+    from fractions import Fraction
+
+    n = len(xs)
+    tot = Lin.num(0)
+    for x in xs:
+        tot = tot + x
+    mean = tot.scale(Fraction(1, n))
+    ss = Lin.num(0)
+    for x in xs:
+        ss = ss + (x - mean).times(x - mean)
+    var = ss.scale(Fraction(1, n - 1))
+    return mean, var
+
+
+def znorm_table(rep, n, fn_name="utilities.my_math:znormalizeData"):
+    """z-normalisation of n generic values (every weak order that is not constant): the result has n elements, they
+    sum to zero, their sample variance is 1, and differences keep their sign (rank order)."""
+    from fractions import Fraction
+
+    idx = common.ctx()
+    fn = idx.get(fn_name)
+    speaker = fn_name.endswith("znormalizeSpeakerData")
+    rep.functions.add(fn.qual)
+    at = Atoms()
+    xs = [at.var("x%d" % i) for i in range(1, n + 1)]
+    tr = TableRun(rep, "M-znorm", fn.short, fn.loc)
+
+    def rows(st):
+        if all(st.signs(x - xs[0]) == frozenset([0]) for x in xs):
+            return [("z", True, "dontcare", None)]  # constant series: the deviation is 0, nothing is promised
+        I = Interp(idx, st, overrides=default_overrides())
+        try:
+            if speaker:
+                rows_ = Lst([Tup([Lin.var("t%d" % i), x, label_var("r%d" % i)]) for i, x in enumerate(xs, 1)])
+                got = I.call_function(fn, [rows_, Lin.num(1), False], {})
+                got_rows = [I.iterate(r) for r in I.iterate(got)]
+                if len(got_rows) != n or any(len(r) != 3 for r in got_rows):
+                    return [("z", False, "%d rows of widths %s returned for %d rows of width 3" % (len(got_rows), [len(r) for r in got_rows], n), None)]
+                for i, r in enumerate(got_rows, 1):
+                    if not (isinstance(r[0], Lin) and r[0].same(Lin.var("t%d" % i))) or r[2] is not I.iterate(I.iterate(rows_)[i - 1])[2]:
+                        return [("z", False, "row %d: the other columns are %r, %r" % (i, r[0], r[2]), None)]
+                outs = [I.num(r[1]) for r in got_rows]
+            else:
+                got = I.call_function(fn, [Lst(list(xs))], {})
+                outs = [I.num(v) for v in I.iterate(got)]
+        except PyRaise as e:
+            return [("z", False, "raises %s" % e.name, None)]
+        except Undecided as e:
+            return [("z", False, "", e if type(e).__name__ == "NeedSplit" else str(e))]
+        if len(outs) != n:
+            return [("z", False, "%d values returned for %d" % (len(outs), n), None)]
+        mean, var = _sample_sd(xs)
+        s = Lin.apply("sqrt", var)
+        unknown = None
+        # mean 0
+        tot = Lin.num(0)
+        for o in outs:
+            tot = tot + o
+        v = terms.decide(st, xs, tot, Lin.num(0))
+        if v[0] == "differ":
+            return [("z", False, "the normalised values sum to %r, not 0; e.g. with %s their sum is %.6g" % (tot, _env(v[1]), v[2]), None)]
+        if v[0] == "unknown":
+            unknown = "mean: " + v[1]
+        # sample variance 1
+        s2 = Lin.num(0)
+        for o in outs:
+            s2 = s2 + o.times(o)
+        s2 = s2.scale(Fraction(1, n - 1))
+        v = terms.decide(st, xs, s2, Lin.num(1), scaled=s.times(s))
+        if v[0] == "same":
+            pass
+        else:
+            v = terms.decide(st, xs, s2.times(s).times(s), s.times(s))
+            if v[0] != "same":
+                v = terms.decide(st, xs, s2, Lin.num(1))
+            if v[0] == "differ":
+                return [("z", False, "the sample variance of the normalised values is %r, not 1; e.g. with %s it is %.6g" % (s2, _env(v[1]), v[2]), None)]
+            if v[0] == "unknown":
+                unknown = unknown or "deviation: " + v[1]
+        # rank order
+        for i in range(n):
+            for j in range(i):
+                d = outs[i] - outs[j]
+                want_sign = st.signs(xs[i] - xs[j])
+                if terms.canon(st, xs, d.times(s)).same(terms.canon(st, xs, xs[i] - xs[j])):
+                    continue
+                if len(want_sign) != 1:
+                    continue
+                ws = next(iter(want_sign))
+
+                def pred(env, d=d, ws=ws):
+                    val = d.evaluate(env)
+                    sg = 0 if abs(val) < 1e-9 else (1 if val > 0 else -1)
+                    return None if sg == ws else "value %d - value %d normalises to %.6g" % (i + 1, j + 1, val)
+                r = terms.refute(st, pred)
+                if r:
+                    return [("z", False, "rank order is not preserved: %s with %s" % (r[0], _env(r[1])), None)]
+                unknown = unknown or "rank order of values %d, %d: %r is not (x%d - x%d) / deviation in form" % (i + 1, j + 1, d, i + 1, j + 1)
+        if unknown:
+            return [("z", False, "", unknown)]
+        return [("z", True, "", None)]
+
+    run_states(at, rows, tr)
+    tr.done("%d generic values, every non-constant weak order%s" % (n, " (column 1 of 3-column rows, filterZeroValues=False)" if speaker else ""))
+
+
+def rms_table(rep, n):
+    """rms of n generic values is the root of the mean of their squares."""
+    from fractions import Fraction
+
+    idx = common.ctx()
+    fn = idx.get("utilities.my_math:rms")
+    rep.functions.add(fn.qual)
+    at = Atoms()
+    at.const(0, "0")
+    xs = [at.var("x%d" % i) for i in range(1, n + 1)]
+    tr = TableRun(rep, "M-rms", fn.short, fn.loc)
+
+    def rows(st):
+        I = Interp(idx, st, overrides=default_overrides())
+        try:
+            got = I.num(I.call_function(fn, [Lst(list(xs))], {}))
+        except PyRaise as e:
+            return [("rms", False, "raises %s" % e.name, None)]
+        except Undecided as e:
+            return [("rms", False, "", e if type(e).__name__ == "NeedSplit" else str(e))]
+        ms = Lin.num(0)
+        for x in xs:
+            ms = ms + x.times(x)
+        ms = ms.scale(Fraction(1, n))
+        want = Lin.apply("sqrt", ms)
+        v = terms.decide(st, xs, got, want)
+        if v[0] == "differ":
+            return [("rms", False, "rms is %r, expected %r; e.g. with %s it is %.6g, not %.6g" % (got, want, _env(v[1]), v[2], v[3]), None)]
+        if v[0] == "unknown":
+            return [("rms", False, "", v[1])]
+        return [("rms", True, "", None)]
+
+    run_states(at, rows, tr)
+    tr.done("%d generic values, every weak order around 0" % n)
+
+
+def listing_table(rep):
+    """loadTimeSeriesData on exemplar listings held in a virtual file: with and without the header line, undefined
+    markers in either value column, blank lines, LF and CRLF; undefinedValue None (rows with an undefined value are
+    skipped), a number, and a symbolic number (substituted).  Every other row comes back, in order, as a tuple of
+    the doubles its numerals denote."""
+    from fractions import Fraction
+    from ..absint import State
+
+    idx = common.ctx()
+    fn = idx.get("pitch_and_intensity:loadTimeSeriesData")
+    rep.functions.add(fn.qual)
+    st = State([("0", Lin.num(0))], [0])
+    body = [["0.01", "120.5", "60.25"], ["0.02", "--undefined--", "61"], ["0.03", "130", "--undefined--"], ["0.04", "1e2", "55.5"],
+            ["0.05", "--undefined--", "--undefined--"], ["0.06", "0", "7.25"]]
+    single = [["0.5", "66.125"], ["0.75", "--undefined--"], ["1", "70"]]
+    n_cases = 0
+    pending = None
+    for rows_, header in ((body, "time,pitch,intensity"), (body, None), (single, "time,intensity"), (single, None), ([], "time,pitch,intensity")):
+        for nl in ("\n", "\r\n"):
+            for blank in (False, True):
+                for uv_name, uv in (("None", None), ("-1.5", Lin.num(Fraction(-3, 2)).as_float()), ("0.0", Lin.num(0).as_float()), ("a symbolic number", Lin.var("U"))):
+                    lines = ([header] if header else []) + [",".join(r) for r in rows_]
+                    if blank:
+                        lines = lines[:2] + [""] + lines[2:] + [""]
+                    if not lines or lines[0] == "":
+                        continue
+                    text = nl.join(lines) + nl
+                    what = "%d-row listing, %s, %s, %s, undefinedValue=%s" % (len(rows_), "header" if header else "no header", "CRLF" if nl != "\n" else "LF", "blank lines" if blank else "no blank lines", uv_name)
+                    if not rows_ and header is None:
+                        continue
+                    n_cases += 1
+                    I = Interp(idx, st, overrides=default_overrides())
+                    I.vfs = {"dir/x.txt": text}
+                    want = []
+                    for r in rows_:
+                        if any("--" in v for v in r[1:]) and uv is None:
+                            continue
+                        want.append([float(r[0])] + [uv if "--" in v else float(v) for v in r[1:]])
+                    try:
+                        got = I.call_function(fn, ["dir/x.txt", uv], {})
+                        got_rows = [I.iterate(r) for r in I.iterate(got)]
+                    except PyRaise as e:
+                        if not rows_:
+                            continue  # a listing with no data rows: nothing is promised
+                        rep.refuted("L-listing", fn.short, what, "raises %s" % e.name, loc=fn.loc)
+                        return
+                    except Undecided as e:
+                        pending = pending or (what, str(e))
+                        continue
+
+                    def same(g, w):
+                        if isinstance(w, Lin):
+                            return isinstance(g, Lin) and g.same(w)
+                        return isinstance(g, Lin) and g.is_const() and float(g.const) == w
+                    ok = len(got_rows) == len(want) and all(len(g) == len(w) and all(same(a, b) for a, b in zip(g, w)) for g, w in zip(got_rows, want))
+                    if not ok:
+                        rep.refuted("L-listing", fn.short, what, "rows read %s, expected %s" % ([[float(a.const) if isinstance(a, Lin) and a.is_const() else a for a in g] for g in got_rows], want), loc=fn.loc)
+                        return
+    if pending:
+        rep.undecided("L-listing", fn.short, pending[0], pending[1])
+        return
+    rep.proved("L-listing", fn.short, "%d exemplar listings x undefinedValue" % n_cases, "every row parsed; undefined values skipped or substituted as requested", loc=fn.loc)
+
+
 def rows_table(rep):
     """filterTimeSeriesData never changes the number or order of rows, nor any column but the filtered one."""
     idx = common.ctx()
@@ -108,8 +504,22 @@ def rows_table(rep):
 def run(rep, tier):
     rep.rule("M-median", "abstract interpretation of medianFilter/_stepFilter on series of generic values (every weak order, lengths 0-4, thorough 5) for window sizes 0-8 and both padding modes against the textbook definition; result has the input's length")
     rep.rule("M-rows", "filterTimeSeriesData keeps the number and order of rows and every column except the filtered one")
-    rep.not_decided.append("z-normalisation (mean 0, sd 1, rank order), rms, getPitchMeasures (mean, range, variance, deviation), detectPitchErrors (ratio jumps): numerical definitions outside the linear order-type domain")
-    rep.not_decided.append("loadTimeSeriesData (file parsing of Praat listings)")
+    rep.rule("M-measures", "abstract interpretation of getPitchMeasures on 0-3 generic pitch values (0 = unvoiced, otherwise >= 1; thorough 4) with and without zero removal, without and with a median window of 3: the six results are, as polynomials over the values (squares and products expanded, the root an uninterpreted function of its argument), the mean, max, min, max - min, population variance and its root of the kept values; six zeros when none is kept")
+    rep.rule("M-jumps", "abstract interpretation of detectPitchErrors on 3 generic (time, pitch) rows x thresholds 0.5, 0.7, 1: a row is reported, at its own time and in order, iff the previous pitch is below threshold x current or above current / threshold (jumps of exactly the ratio: either answer); thresholds outside [0, 1] are rejected")
+    rep.rule("M-znorm", "abstract interpretation of znormalizeData and znormalizeSpeakerData (filterZeroValues=False) on 2-3 generic values (thorough 4), every non-constant weak order: n results; their sum is 0 as a polynomial; their sample variance times deviation^2 equals deviation^2 (sqrt and reciprocal are uninterpreted functions with the rewrite rules sqrt(p)*sqrt(p) = p and t*(1/t) = 1); (z_i - z_j) * deviation = x_i - x_j (rank order).  Where the forms differ a refutation is an assignment of the values, consistent with the case, at which the two closed-form expressions differ; forms that differ but agree at every sample are reported as undecided, never as a violation")
+    rep.rule("M-rms", "abstract interpretation of rms on 1-3 generic values: the result is sqrt(mean of squares) as an expression")
+    rep.not_decided.append("znormalizeSpeakerData with filterZeroValues=True and znormWindowFilter (the property does not define what zero filtering means for them)")
+    rep.not_decided.append("getPitchMeasures: which of zero removal and median filtering comes first, and the padding mode of the filter (the property does not fix them; M-measures accepts each)")
+    rep.rule("L-listing", "interpretation of loadTimeSeriesData on exemplar listings in a virtual file (header / no header, undefined markers in each column, blank lines, LF / CRLF) x undefinedValue None, -1.5, 0.0, a symbolic number: every row comes back in order as the doubles its numerals denote, rows with an undefined value skipped or substituted as requested (exemplar-based: a finite sample of listings, not every listing)")
     for n in ([0, 1, 2, 3, 4] if tier == "quick" else [0, 1, 2, 3, 4, 5]):
         median_table(rep, n, range(0, 9))
     rows_table(rep)
+    for n in ([0, 1, 2, 3] if tier == "quick" else [0, 1, 2, 3, 4]):
+        measures_table(rep, n)
+    pitch_errors_table(rep, 3 if tier == "quick" else 4)
+    for n in ([2, 3] if tier == "quick" else [2, 3, 4]):
+        znorm_table(rep, n)
+        znorm_table(rep, n, "utilities.my_math:znormalizeSpeakerData")
+    for n in (1, 2, 3):
+        rms_table(rep, n)
+    listing_table(rep)
